@@ -26,13 +26,14 @@ type World struct {
 	cs      *ContractSet
 	repo    string
 
-	globals   map[*types.Var]int
-	globalLst []*types.Var
+	globals   map[string]int // "pkgpath.Name" -> reference
+	globalLst []string
 	fnByKey   map[string]*ssa.Function
 	regexOf   map[string]string // global var name (pkg.Name) -> pattern
 	extFn   map[string]*ssa.Function
 	intrinsicsUsed map[string]bool
 	assumedUsed    map[string]bool
+	axiomsUsed     map[string]bool
 	baseSentinels  []string // error globals initialised directly by errors.New (the base classes)
 }
 
@@ -65,9 +66,9 @@ func loadWorld(repo, verifDir string) (*World, error) {
 	prog.Build()
 	w := &World{
 		fset: pkgs[0].Fset, prog: prog, pkgs: pkgs, spkgs: map[string]*ssa.Package{},
-		reg: newRegistry(), repo: repo, globals: map[*types.Var]int{},
+		reg: newRegistry(), repo: repo, globals: map[string]int{},
 		fnByKey: map[string]*ssa.Function{}, regexOf: map[string]string{}, extFn: map[string]*ssa.Function{},
-		intrinsicsUsed: map[string]bool{}, assumedUsed: map[string]bool{},
+		intrinsicsUsed: map[string]bool{}, assumedUsed: map[string]bool{}, axiomsUsed: map[string]bool{},
 	}
 	for _, sp := range spkgs {
 		if sp == nil {
@@ -213,12 +214,20 @@ func (w *World) fnKey(fn *ssa.Function) string {
 }
 
 func (w *World) globalRef(v *types.Var) string {
-	if i, ok := w.globals[v]; ok {
+	return w.globalRefName(v.Pkg().Path() + "." + v.Name())
+}
+
+func (w *World) globalRefName(key string) string {
+	if i, ok := w.globals[key]; ok {
 		return fmt.Sprint(i)
 	}
-	w.globalLst = append(w.globalLst, v)
-	w.globals[v] = len(w.globalLst)
+	w.globalLst = append(w.globalLst, key)
+	w.globals[key] = len(w.globalLst)
 	return fmt.Sprint(len(w.globalLst))
+}
+
+func (w *World) globalRefSSA(g *ssa.Global) string {
+	return w.globalRefName(g.Pkg.Pkg.Path() + "." + g.Name())
 }
 
 // ---- addresses -------------------------------------------------------------------
